@@ -11,7 +11,7 @@ it explicitly for an arbitrary element.
 import ast
 from fractions import Fraction
 
-from .core import ntext, FUNC_NODES, walk_local
+from .core import ntext, FUNC_NODES, walk_local, acopy
 from .poly import Num, Poly, C
 
 
@@ -1807,7 +1807,7 @@ class Evaluator:
             stmt_level = {id(n.value) for n in walk_local(f.node) if isinstance(n, ast.Expr) and isinstance(n.value, (ast.Yield, ast.YieldFrom))}
             if all(id(y) in stmt_level for y in ys):
                 ACC = "_yield_acc"
-                body = _copy.deepcopy(f.node.body)
+                body = acopy(f.node.body)
 
                 class T(ast.NodeTransformer):
                     def visit_FunctionDef(self, node):
@@ -2537,7 +2537,7 @@ class Evaluator:
                 import copy as _copy
 
                 ln = ast.Constant(value=len(base.items))
-                test = ast.Compare(left=ast.Constant(value=-len(base.items)), ops=[ast.LtE(), ast.Lt()], comparators=[_copy.deepcopy(lookups[0].slice), ln])
+                test = ast.Compare(left=ast.Constant(value=-len(base.items)), ops=[ast.LtE(), ast.Lt()], comparators=[acopy(lookups[0].slice), ln])
                 synth = ast.If(test=test, body=list(s.body) + list(s.orelse), orelse=list(ihandler.body))
                 ast.copy_location(synth, s)
                 ast.fix_missing_locations(synth)
@@ -2549,7 +2549,7 @@ class Evaluator:
             if dictlike:
                 import copy as _copy
 
-                test = ast.Compare(left=_copy.deepcopy(lookups[0].slice), ops=[ast.In()], comparators=[_copy.deepcopy(lookups[0].value)])
+                test = ast.Compare(left=acopy(lookups[0].slice), ops=[ast.In()], comparators=[acopy(lookups[0].value)])
                 synth = ast.If(test=test, body=list(s.body) + list(s.orelse), orelse=list(handler.body))
                 ast.copy_location(synth, s)
                 ast.fix_missing_locations(synth)
